@@ -87,7 +87,9 @@ StepCreate(s, ev, within, at) ==
         cap == w.cap[a + 1]
         tag == ev.out[1]
     IN
-    CASE tag = "ok" ->
+    CASE tag # "p" /\ "cfault" \in DOMAIN ev /\ ev.cfault ->
+           Finish(s, s.W, ev, {}, TRUE, ev.w, {}, {V(<<"TOOL">>, at, "a conversion fault fired but create did not panic")}, {}, 0, at)
+      [] tag = "ok" ->
            LET t == ev.out[2]
                reissued == t \in w.issued
                older == \E u \in w.issued : u[1] = t[1] /\ u[2] = t[2] /\ C!GenLt(C!Gen(t), C!Gen(u))
@@ -112,8 +114,11 @@ StepCreate(s, ev, within, at) ==
                 \cup If(ev.out[2] # ev.vals, {V(<<"C12", "C04">>, at, "create_within_capacity did not hand back its argument")}),
                   {}, 0, at)
       [] tag = "p" ->
+           \* the documented capacity panic, or a panic injected into the user's own conversion into
+           \* the Components struct (cfault): nothing may have changed, the argument is dropped
+           LET cfault == "cfault" \in DOMAIN ev /\ ev.cfault IN
            Finish(s, s.W, ev, C!Ids(ev.vals), FALSE, ev.w, {a},
-                  If(within \/ len < C!RealMaxCap, {V(<<"C12", "C10">>, at, "create panicked below the 2^24 limit")}),
+                  If(~cfault /\ (within \/ len < C!RealMaxCap), {V(<<"C12", "C10">>, at, "create panicked below the 2^24 limit")}),
                   C!Ids(ev.vals) \ SeqSet(ev.drops), 1, at)
 
 \* destroy by any key kind, world or archetype level
